@@ -29,9 +29,13 @@ from typing import Any, Callable, Optional
 
 ROOT = os.path.dirname(os.path.dirname(os.path.abspath(__file__)))
 PY = os.path.join(ROOT, ".venv", "bin", "python")
-GEN = os.path.join(ROOT, "harness", "_gen")
-REPLAYS = os.path.join(ROOT, "replays")
-EVID = os.path.join(ROOT, "evidence")
+# VERIF_OUT redirects everything a run writes (generated harnesses, replays, evidence) to a scratch
+# directory: used when a check is run against a scratch tree (seeded changes), so that the committed
+# evidence always describes /repo itself.
+_OUT = os.environ.get("VERIF_OUT")
+GEN = os.path.join(_OUT, "_gen") if _OUT else os.path.join(ROOT, "harness", "_gen")
+REPLAYS = os.path.join(_OUT, "replays") if _OUT else os.path.join(ROOT, "replays")
+EVID = os.path.join(_OUT, "evidence") if _OUT else os.path.join(ROOT, "evidence")
 KNOWN = os.path.join(ROOT, "known_findings.json")
 HARNESS_ERROR = 3
 
